@@ -1605,6 +1605,8 @@ func (app *App) repairSlaveOfflineMode(host string, state *nodestate.NodeState, 
 
 	replPermBroken, _ := state.IsReplicationPermanentlyBroken()
 	node := app.cluster.Get(host)
+	// set when this pass has already turned the replica offline (and counted it in pendingOfflineByAZ)
+	countedOffline := false
 	// offline => online, if lag has decreased
 	if state.IsOffline && *state.SlaveState.ReplicationLag <= app.config.OfflineModeDisableLag.Seconds() {
 		if replPermBroken {
@@ -1651,6 +1653,7 @@ func (app *App) repairSlaveOfflineMode(host string, state *nodestate.NodeState, 
 				// Track all replicas which were set offline on current step
 				az := getAvailabilityZone(host, app.config.OfflineModeAZSeparator)
 				pendingOfflineByAZ[az]++
+				countedOffline = true
 
 				err = app.optController.Enable(node)
 				if err != nil {
@@ -1685,6 +1688,10 @@ func (app *App) repairSlaveOfflineMode(host string, state *nodestate.NodeState, 
 			app.logger.Error().Err(err).Msgf("repair: failed to set slave %s offline", host)
 		} else {
 			app.logger.Info().Msgf("repair: slave %s set offline, because replication permanently broken", host)
+			// this replica is offline for the rest of the pass too: count it against the AZ limit
+			if !countedOffline {
+				pendingOfflineByAZ[getAvailabilityZone(host, app.config.OfflineModeAZSeparator)]++
+			}
 		}
 	}
 }
